@@ -14,17 +14,15 @@ theorem step_start {s : SpecSt} {m m' : MState} {j : Nat} (R : Rel s m) (hs : st
   simp only [step] at hs
   split_ifs at hs
   injection hs with hs; subst hs
-  refine ⟨⟨R.ids, R.pins, ?_, R.departed, ?_⟩, rfl, rfl, rfl⟩
-  · show insertPeer j m.running = insertPeer j s.running
-    rw [R.running]
-  · intro k hk
-    exact R.wiped k (mem_erasePeer.1 hk).1
+  refine ⟨⟨R.ids, R.pins, ?_, R.departed⟩, rfl, rfl, rfl⟩
+  show insertPeer j m.running = insertPeer j s.running
+  rw [R.running]
 
 theorem step_stop {s : SpecSt} {m m' : MState} {j : Nat} (R : Rel s m) (hs : step m (.stop j) = some m') :
     StepGoal s m m' (.stop j) := by
   simp only [step] at hs
   injection hs with hs; subst hs
-  refine ⟨⟨R.ids, R.pins, ?_, R.departed, R.wiped⟩, rfl, rfl, rfl⟩
+  refine ⟨⟨R.ids, R.pins, ?_, R.departed⟩, rfl, rfl, rfl⟩
   show erasePeer j m.running = erasePeer j s.running
   rw [R.running]
 
@@ -33,7 +31,7 @@ theorem step_clean {s : SpecSt} {m m' : MState} {j : Nat} {g : Bool} (R : Rel s 
   simp only [step] at hs
   split_ifs at hs with hg
   injection hs with hs; subst hs
-  refine ⟨⟨R.ids, R.pins, ?_, R.departed, R.wiped⟩, rfl, rfl, ?_⟩
+  refine ⟨⟨R.ids, R.pins, ?_, R.departed⟩, rfl, rfl, ?_⟩
   · show erasePeer j m.running = erasePeer j s.running
     rw [R.running]
   · simp [checkOp, hg]
@@ -43,7 +41,7 @@ theorem step_ready {s : SpecSt} {m m' : MState} {j : Nat} {l v sy : Bool} {pins 
   simp only [step] at hs
   split_ifs at hs with hc
   injection hs with hs; subst hs
-  refine ⟨⟨R.ids, R.pins, R.running, R.departed, R.wiped⟩, rfl, rfl, ?_⟩
+  refine ⟨⟨R.ids, R.pins, R.running, R.departed⟩, rfl, rfl, ?_⟩
   simp only [Bool.and_eq_true] at hc
   have hp := hc.2
   simp only [MState.pins, R.pins] at hp
@@ -55,61 +53,47 @@ theorem step_sync {s : SpecSt} {m m' : MState} {j : Nat} {r : SyncRes} (R : Rel 
   split_ifs at hs
   all_goals
     injection hs with hs; subst hs
-    exact ⟨⟨R.ids, R.pins, R.running, R.departed, R.wiped⟩, rfl, rfl, rfl⟩
+    exact ⟨⟨R.ids, R.pins, R.running, R.departed⟩, rfl, rfl, rfl⟩
 
 theorem step_restart {s : SpecSt} {m m' : MState} {j : Nat} (R : Rel s m) (hs : step m (.restart j) = some m') :
     StepGoal s m m' (.restart j) := by
   simp only [step] at hs
-  split_ifs at hs with hw hi
-  · exfalso
-    have hj : j ∈ m.wiped := by simpa using hw
-    have : m.ids = [j] := by simpa using hi
-    apply R.wiped j hj
-    show j ∈ m.ids
-    rw [this]; simp
-  · injection hs with hs; subst hs
-    refine ⟨⟨R.ids, R.pins, ?_, ?_, R.wiped⟩, rfl, rfl, rfl⟩
-    · show insertPeer j m.running = insertPeer j s.running
-      rw [R.running]
-    · show erasePeer j m.departed = erasePeer j s.departed
-      rw [R.departed]
-
+  split_ifs at hs with hw
+  injection hs with hs; subst hs
+  refine ⟨⟨R.ids, R.pins, ?_, ?_⟩, rfl, rfl, rfl⟩
+  · show insertPeer j m.running = insertPeer j s.running
+    rw [R.running]
+  · show erasePeer j m.departed = erasePeer j s.departed
+    rw [R.departed]
 
 theorem rel_of_log {s : SpecSt} {m m' : MState} (R : Rel s m)
-    (hrun : m'.running = m.running) (hdep : m'.departed = m.departed) (hwi : m'.wiped = m.wiped)
+    (hrun : m'.running = m.running) (hdep : m'.departed = m.departed)
     {members' : List Nat} {pinset' : PinMap}
-    (hids : cfgIds (cfgAt m'.log) = members') (hpins : pinsAt m'.log = pinset')
-    (hw : ∀ j, j ∈ m.wiped → j ∉ members') :
+    (hids : cfgIds (cfgAt m'.log) = members') (hpins : pinsAt m'.log = pinset') :
     Rel { s with members := members', pinset := pinset' } m' :=
-  ⟨hids, hpins, by rw [hrun]; exact R.running, by rw [hdep]; exact R.departed,
-   by intro j hj; rw [hwi] at hj; rw [hids]; exact hw j hj⟩
+  ⟨hids, hpins, by rw [hrun]; exact R.running, by rw [hdep]; exact R.departed⟩
 
 theorem rel_same_log {s : SpecSt} {m m' : MState} (R : Rel s m) (hlog : m'.log = m.log)
-    (hrun : m'.running = m.running) (hdep : m'.departed = m.departed) (hwi : m'.wiped = m.wiped) : Rel s m' :=
+    (hrun : m'.running = m.running) (hdep : m'.departed = m.departed) : Rel s m' :=
   ⟨by rw [hlog]; exact R.ids, by rw [hlog]; exact R.pins, by rw [hrun]; exact R.running,
-   by rw [hdep]; exact R.departed, by intro j hj; rw [hwi] at hj; rw [hlog]; exact R.wiped j hj⟩
+   by rw [hdep]; exact R.departed⟩
 
 theorem step_add {s : SpecSt} {m m' : MState} {a j : Nat} {res : Res} (R : Rel s m)
     (hs : step m (.add a j res) = some m') : StepGoal s m m' (.add a j res) := by
   simp only [step] at hs
-  split_ifs at hs with hw
-  obtain ⟨⟨ht, hrp, hrun, hdep, hwi⟩, hcase, hmem⟩ := issue_some (errEmpty_add j) hs
+  obtain ⟨⟨ht, hrp, hrun, hdep, _⟩, hcase, hmem⟩ := issue_some (errEmpty_add j) hs
   obtain ⟨hok, hids, hpo⟩ := add_ids m.log j
   refine ⟨?_, hrp, ht, ?_⟩
   · rcases hcase with ⟨rfl, hlog⟩ | ⟨rfl, _, hlog⟩
     · have : advance s (.add a j .err) = s := by simp [advance, okB]
       rw [this]
-      exact rel_same_log R hlog hrun hdep hwi
+      exact rel_same_log R hlog hrun hdep
     · have : advance s (.add a j .ok) = { s with members := insertPeer j s.members, pinset := s.pinset } := by
         simp [advance, okB]
       rw [this]
-      refine rel_of_log R hrun hdep hwi ?_ ?_ ?_
+      refine rel_of_log R hrun hdep ?_ ?_
       · rw [hlog, hids, R.ids]
       · rw [hlog, pinsAt_append_cfg _ _ hpo, R.pins]
-      · intro k hk hk'
-        rcases mem_insertPeer.1 hk' with rfl | h
-        · exact hw (by simpa using hk)
-        · rw [← R.ids] at h; exact R.wiped k hk h
   · simp only [checkOp, List.all_cons, List.all_nil, Bool.and_true]
     cases hrem : remains s a with
     | false => simp
@@ -121,22 +105,19 @@ theorem step_add {s : SpecSt} {m m' : MState} {a j : Nat} {res : Res} (R : Rel s
 theorem step_rm {s : SpecSt} {m m' : MState} {a j : Nat} {res : Res} (R : Rel s m)
     (hs : step m (.rm a j res) = some m') : StepGoal s m m' (.rm a j res) := by
   simp only [step] at hs
-  obtain ⟨⟨ht, hrp, hrun, hdep, hwi⟩, hcase, hmem⟩ := issue_some (errEmpty_rm j) hs
+  obtain ⟨⟨ht, hrp, hrun, hdep, _⟩, hcase, hmem⟩ := issue_some (errEmpty_rm j) hs
   obtain ⟨hids, _, hpo, habs, hlast⟩ := rm_ids m.log j
   refine ⟨?_, hrp, ht, ?_⟩
   · rcases hcase with ⟨rfl, hlog⟩ | ⟨rfl, hok, hlog⟩
     · have : advance s (.rm a j .err) = s := by simp [advance, okB]
       rw [this]
-      exact rel_same_log R hlog hrun hdep hwi
+      exact rel_same_log R hlog hrun hdep
     · have : advance s (.rm a j .ok) = { s with members := erasePeer j s.members, pinset := s.pinset } := by
         simp [advance, okB]
       rw [this]
-      refine rel_of_log R hrun hdep hwi ?_ ?_ ?_
+      refine rel_of_log R hrun hdep ?_ ?_
       · rw [hlog, hids hok, R.ids]
       · rw [hlog, pinsAt_append_cfg _ _ hpo, R.pins]
-      · intro k hk hk'
-        have := (mem_erasePeer.1 hk').1
-        rw [← R.ids] at this; exact R.wiped k hk this
   · simp only [checkOp, List.all_cons, List.all_nil, Bool.and_true, Bool.and_eq_true]
     constructor
     · cases hrem : remains s a with
@@ -170,19 +151,18 @@ theorem step_pin {s : SpecSt} {m m' : MState} {a : Nat} {p : Pin} {res : Res} (R
     have : advance s (.pin a p .err) = s := by simp [advance, okB]
     rw [StepGoal, this]
     exact ⟨R, rfl, rfl, rfl⟩
-  · obtain ⟨⟨ht, hrp, hrun, hdep, hwi⟩, hcase, _⟩ := issue_some (errEmpty_commit (.pin p)) hs
+  · obtain ⟨⟨ht, hrp, hrun, hdep, _⟩, hcase, _⟩ := issue_some (errEmpty_commit (.pin p)) hs
     refine ⟨?_, hrp, ht, rfl⟩
     rcases hcase with ⟨rfl, hlog⟩ | ⟨rfl, _, hlog⟩
     · have : advance s (.pin a p .err) = s := by simp [advance, okB]
       rw [this]
-      exact rel_same_log R hlog hrun hdep hwi
+      exact rel_same_log R hlog hrun hdep
     · have : advance s (.pin a p .ok) = { s with members := s.members, pinset := PinMap.put p.stored s.pinset } := by
         simp [advance, okB]
       rw [this, commit_true] at *
-      refine rel_of_log R hrun hdep hwi ?_ ?_ ?_
+      refine rel_of_log R hrun hdep ?_ ?_
       · rw [hlog, cfgAt_append]; simp only [applyCfg]; exact R.ids
       · rw [hlog, pinsAt_append]; simp only [applyPin]; rw [R.pins]
-      · intro k hk; rw [← R.ids]; exact R.wiped k hk
 
 theorem step_unpin {s : SpecSt} {m m' : MState} {a c : Nat} {res : Res} (R : Rel s m)
     (hs : step m (.unpin a c res) = some m') : StepGoal s m m' (.unpin a c res) := by
@@ -194,32 +174,31 @@ theorem step_unpin {s : SpecSt} {m m' : MState} {a c : Nat} {res : Res} (R : Rel
     have : advance s (.unpin a c .err) = s := by simp [advance, okB]
     rw [StepGoal, this]
     exact ⟨R, rfl, rfl, rfl⟩
-  · obtain ⟨⟨ht, hrp, hrun, hdep, hwi⟩, hcase, _⟩ := issue_some (errEmpty_commit (.unpin c)) hs
+  · obtain ⟨⟨ht, hrp, hrun, hdep, _⟩, hcase, _⟩ := issue_some (errEmpty_commit (.unpin c)) hs
     refine ⟨?_, hrp, ht, rfl⟩
     rcases hcase with ⟨rfl, hlog⟩ | ⟨rfl, _, hlog⟩
     · have : advance s (.unpin a c .err) = s := by simp [advance, okB]
       rw [this]
-      exact rel_same_log R hlog hrun hdep hwi
+      exact rel_same_log R hlog hrun hdep
     · have : advance s (.unpin a c .ok) = { s with members := s.members, pinset := s.pinset.erase c } := by
         simp [advance, okB]
       rw [this, commit_true] at *
-      refine rel_of_log R hrun hdep hwi ?_ ?_ ?_
+      refine rel_of_log R hrun hdep ?_ ?_
       · rw [hlog, cfgAt_append]; simp only [applyCfg]; exact R.ids
       · rw [hlog, pinsAt_append]; simp only [applyPin]; rw [R.pins]
-      · intro k hk; rw [← R.ids]; exact R.wiped k hk
 
 theorem step_nonvoter {s : SpecSt} {m m' : MState} {a j : Nat} {res : Res} (R : Rel s m)
     (hs : step m (.nonvoter a j res) = some m') : StepGoal s m m' (.nonvoter a j res) := by
   simp only [step] at hs
   split_ifs at hs with hc
   injection hs with hs; subst hs
-  simp only [Bool.and_eq_true, Bool.not_eq_true', beq_iff_eq] at hc
-  obtain ⟨⟨_, rfl⟩, hw⟩ := hc
+  simp only [Bool.and_eq_true, beq_iff_eq] at hc
+  obtain ⟨_, rfl⟩ := hc
   have : advance s (.nonvoter a j .ok) = { s with members := insertPeer j s.members, pinset := s.pinset } := by
     simp [advance, okB]
   rw [StepGoal, this]
   refine ⟨?_, rfl, rfl, rfl⟩
-  refine rel_of_log (m' := { m with log := m.log ++ [.addNonvoter j] }) R rfl rfl rfl ?_ ?_ ?_
+  refine rel_of_log (m' := { m with log := m.log ++ [.addNonvoter j] }) R rfl rfl ?_ ?_
   · show cfgIds (cfgAt (m.log ++ [.addNonvoter j])) = _
     rw [cfgAt_append]; simp only [applyCfg]
     split_ifs with hv
@@ -228,11 +207,6 @@ theorem step_nonvoter {s : SpecSt} {m m' : MState} {a j : Nat} {res : Res} (R : 
     · rw [cfgIds_cfgPut, R.ids]
   · show pinsAt (m.log ++ [.addNonvoter j]) = _
     rw [pinsAt_append]; simp only [applyPin]; exact R.pins
-  · intro k hk hk'
-    rcases mem_insertPeer.1 hk' with rfl | h
-    · have : ¬ k ∈ m.wiped := by simpa using hw
-      exact this hk
-    · rw [← R.ids] at h; exact R.wiped k hk h
 
 
 theorem direct_eq (att : Attempt) (log : List Entry) :
@@ -251,62 +225,60 @@ theorem step_join {s : SpecSt} {m m' : MState} {j via : Nat} {res : Res} {pins :
   have hpins : pinsAt (m.log ++ [.addVoter j]) = s.pinset := by
     rw [pinsAt_append]; simp only [applyPin]; exact R.pins
   rw [StepGoal, hadv]
-  refine ⟨⟨?_, hpins, ?_, ?_, ?_⟩, rfl, rfl, ?_⟩
+  refine ⟨⟨?_, hpins, ?_, ?_⟩, rfl, rfl, ?_⟩
   · show cfgIds (cfgAt (m.log ++ [.addVoter j])) = _
     rw [cfgAt_append]; simp only [applyCfg]; rw [cfgIds_cfgPut, R.ids]
   · show insertPeer j m.running = insertPeer j s.running
     rw [R.running]
   · show erasePeer j m.departed = erasePeer j s.departed
     rw [R.departed]
-  · intro k hk
-    have hk' := mem_erasePeer.1 hk
-    show k ∉ cfgIds (cfgAt (m.log ++ [.addVoter j]))
-    rw [cfgAt_append]; simp only [applyCfg]; rw [cfgIds_cfgPut]
-    intro h
-    rcases mem_insertPeer.1 h with h | h
-    · exact hk'.2 h
-    · exact R.wiped k hk'.1 h
   · rw [hpins] at hp
     simp [checkOp, hp]
 
 theorem step_leave {s : SpecSt} {m m' : MState} {j : Nat} {res : Res} (R : Rel s m)
-    (hs : step m (.leave j res) = some m') (hl : failedLeave (.leave j res) = false) :
-    StepGoal s m m' (.leave j res) := by
-  have hres : res = .ok := by cases res <;> simp_all [failedLeave]
-  subst hres
+    (hs : step m (.leave j res) = some m') : StepGoal s m m' (.leave j res) := by
   simp only [step] at hs
-  split_ifs at hs with hm hr
-  injection hs with hs; subst hs
-  rw [direct_eq] at hr
-  have hok : (rwRemovePeer j (cfgAt m.log) true).1 = .ok := by simpa using hr
-  obtain ⟨hids, _, hpo, _, hlast⟩ := rm_ids m.log j
-  have hadv : advance s (.leave j .ok) =
-      { s with members := erasePeer j s.members, running := erasePeer j s.running,
-               departed := insertPeer j s.departed } := by simp [advance, okB]
-  rw [StepGoal, hadv]
-  refine ⟨⟨?_, ?_, ?_, ?_, ?_⟩, rfl, rfl, ?_⟩
-  · show cfgIds (cfgAt (direct (rwRemovePeer j) m.log).2) = _
-    rw [direct_eq]; simp only; rw [hids hok, R.ids]
-  · show pinsAt (direct (rwRemovePeer j) m.log).2 = _
-    rw [direct_eq]; simp only; rw [pinsAt_append_cfg _ _ hpo, R.pins]
-  · show erasePeer j m.running = erasePeer j s.running
-    rw [R.running]
-  · show insertPeer j m.departed = insertPeer j s.departed
-    rw [R.departed]
-  · intro k hk
-    show k ∉ cfgIds (cfgAt (direct (rwRemovePeer j) m.log).2)
-    rw [direct_eq]; simp only; rw [hids hok]
-    intro h
-    have h' := mem_erasePeer.1 h
-    rcases mem_insertPeer.1 hk with rfl | hk
-    · exact h'.2 rfl
-    · exact R.wiped k hk h'.1
-  · simp only [checkOp, List.all_cons, List.all_nil, Bool.and_true]
-    cases hc : (s.members == [j]) with
-    | false => simp
-    | true =>
-      have hj : cfgIds (cfgAt m.log) = [j] := by rw [R.ids]; simpa using hc
-      rw [hlast hj] at hok; cases hok
+  split_ifs at hs with hm hr hres
+  all_goals (injection hs with hs; subst hs)
+  all_goals rw [direct_eq] at hr
+  all_goals obtain ⟨hids, herrE, hpo, _, hlast⟩ := rm_ids m.log j
+  · -- left: RmPeer(self) succeeded
+    have hres' : res = .ok := by simpa using hres
+    subst hres'
+    have hok : (rwRemovePeer j (cfgAt m.log) true).1 = .ok := by simpa using hr
+    have hadv : advance s (.leave j .ok) =
+        { s with members := erasePeer j s.members, running := erasePeer j s.running,
+                 departed := insertPeer j s.departed } := by simp [advance, okB]
+    rw [StepGoal, hadv]
+    refine ⟨⟨?_, ?_, ?_, ?_⟩, rfl, rfl, ?_⟩
+    · show cfgIds (cfgAt (direct (rwRemovePeer j) m.log).2) = _
+      rw [direct_eq]; simp only; rw [hids hok, R.ids]
+    · show pinsAt (direct (rwRemovePeer j) m.log).2 = _
+      rw [direct_eq]; simp only; rw [pinsAt_append_cfg _ _ hpo, R.pins]
+    · show erasePeer j m.running = erasePeer j s.running
+      rw [R.running]
+    · show insertPeer j m.departed = insertPeer j s.departed
+      rw [R.departed]
+    · simp only [checkOp, List.all_cons, List.all_nil, Bool.and_true]
+      cases hc : (s.members == [j]) with
+      | false => simp
+      | true =>
+        have hj : cfgIds (cfgAt m.log) = [j] := by rw [R.ids]; simpa using hc
+        rw [hlast hj] at hok; cases hok
+  · -- could not leave: the peer stops, nothing else changes
+    have hres' : res = .err := res_ne_ok hres
+    subst hres'
+    have herr : (rwRemovePeer j (cfgAt m.log) true).1 = .err := by simpa using hr
+    have hadv : advance s (.leave j .err) = { s with running := erasePeer j s.running } := by simp [advance, okB]
+    rw [StepGoal, hadv]
+    refine ⟨⟨?_, ?_, ?_, R.departed⟩, rfl, rfl, ?_⟩
+    · show cfgIds (cfgAt (direct (rwRemovePeer j) m.log).2) = _
+      rw [direct_eq]; simp only; rw [herrE herr, List.append_nil]; exact R.ids
+    · show pinsAt (direct (rwRemovePeer j) m.log).2 = _
+      rw [direct_eq]; simp only; rw [herrE herr, List.append_nil]; exact R.pins
+    · show erasePeer j m.running = erasePeer j s.running
+      rw [R.running]
+    · simp [checkOp, okB]
 
 /-! ### PeerRemove -/
 theorem foldl_callEntries (calls : List Call) (acc : PinMap) :
@@ -485,46 +457,38 @@ theorem step_peerRm {s : SpecSt} {m m' : MState} {a p : Nat} {res : Res} {calls 
       rw [advance_peerRm_err]
       rw [if_neg (by simp)] at hs
       injection hs with hs; subst hs
-      refine ⟨?_, ?_, R.running, R.departed, ?_⟩
+      refine ⟨?_, ?_, R.running, R.departed⟩
       · show cfgIds (cfgAt (m.log ++ callEntries calls ++ (rwRemovePeer p (cfgAt m.log) true).2)) = s.members
         rw [hE, List.append_nil, hcfg1]; exact R.ids
       · show pinsAt (m.log ++ callEntries calls ++ (rwRemovePeer p (cfgAt m.log) true).2) = _
         rw [hE, List.append_nil]; exact hpins1
-      · intro k hk
-        show k ∉ cfgIds (cfgAt (m.log ++ callEntries calls ++ (rwRemovePeer p (cfgAt m.log) true).2))
-        rw [hE, List.append_nil, hcfg1]; exact R.wiped k hk
     | ok =>
       rw [advance_peerRm_ok]
       have hI : cfgIds (cfgAt (m.log ++ callEntries calls ++ (rwRemovePeer p (cfgAt m.log) true).2)) =
           erasePeer p s.members := by rw [hids hr', R.ids]
       have hP : pinsAt (m.log ++ callEntries calls ++ (rwRemovePeer p (cfgAt m.log) true).2) =
           repinFold calls s.pinset := by rw [pinsAt_append_cfg _ _ hpo]; exact hpins1
-      have hW : ∀ k, k ∈ m.wiped → k ∉ erasePeer p s.members := by
-        intro k hk h
-        have := (mem_erasePeer.1 h).1
-        rw [← R.ids] at this; exact R.wiped k hk this
       by_cases hrun : m.running.contains p = true
       · simp only [beq_self_eq_true, Bool.true_and, hrun, if_true] at hs
         injection hs with hs; subst hs
         have hrun' : s.running.contains p = true := by rw [← R.running]; exact hrun
         rw [if_pos hrun', if_pos hrun']
-        refine ⟨hI, hP, ?_, ?_, ?_⟩
+        refine ⟨hI, hP, ?_, ?_⟩
         · show erasePeer p m.running = _
           rw [R.running]
         · show insertPeer p m.departed = _
           rw [R.departed]
-        · intro k hk; rw [hI]; exact hW k hk
       · simp only [beq_self_eq_true, Bool.true_and, hrun, Bool.false_eq_true, if_false] at hs
         injection hs with hs; subst hs
         have hrun' : ¬ s.running.contains p = true := by rw [← R.running]; exact hrun
         rw [if_neg hrun', if_neg hrun']
-        exact ⟨hI, hP, R.running, R.departed, by intro k hk; rw [hI]; exact hW k hk⟩
+        exact ⟨hI, hP, R.running, R.departed⟩
   · split_ifs at hs <;> (injection hs with hs; subst hs; rfl)
   · split_ifs at hs <;> (injection hs with hs; subst hs; rfl)
 
-/-- every step the model allows keeps the relation and meets the step's clauses (given no failed leave) -/
-theorem step_rel {s : SpecSt} {m m' : MState} {op : Op} (R : Rel s m) (hs : step m op = some m')
-    (hl : failedLeave op = false) : StepGoal s m m' op := by
+/-- every step the model allows keeps the relation and meets the step's clauses -/
+theorem step_rel {s : SpecSt} {m m' : MState} {op : Op} (R : Rel s m) (hs : step m op = some m') :
+    StepGoal s m m' op := by
   cases op with
   | start j => exact step_start R hs
   | add a j r => exact step_add R hs
@@ -539,38 +503,35 @@ theorem step_rel {s : SpecSt} {m m' : MState} {op : Op} (R : Rel s m) (hs : step
   | clean j g => exact step_clean R hs
   | join j via r pins => exact step_join R hs
   | peerRm a p r calls => exact step_peerRm R hs
-  | leave j r => exact step_leave R hs hl
+  | leave j r => exact step_leave R hs
 
 theorem replay_rel {ops : List Op} : ∀ {s : SpecSt} {m m' : MState}, Rel s m → replay m ops = some m' →
-    (ops.all (fun o => !failedLeave o)) = true →
     Rel (finalSt s ops) m' ∧ m'.repin = m.repin ∧ (checkOps m.repin s ops).all (·.2) = true := by
   induction ops with
   | nil =>
-    intro s m m' R h _
+    intro s m m' R h
     simp only [replay] at h
     injection h with h; subst h
     exact ⟨R, rfl, rfl⟩
   | cons op rest ih =>
-    intro s m m' R h hl
+    intro s m m' R h
     simp only [replay] at h
     cases hst : step m op with
     | none => rw [hst] at h; cases h
     | some m1 =>
       rw [hst] at h
-      simp only [List.all_cons, Bool.and_eq_true, Bool.not_eq_true'] at hl
-      obtain ⟨R1, hrp, _, hc⟩ := step_rel R hst hl.1
-      obtain ⟨R2, hrp2, hc2⟩ := ih R1 h (by simpa using hl.2)
+      obtain ⟨R1, hrp, _, hc⟩ := step_rel R hst
+      obtain ⟨R2, hrp2, hc2⟩ := ih R1 h
       refine ⟨R2, hrp2.trans hrp, ?_⟩
       simp only [checkOps, List.all_append, Bool.and_eq_true]
       rw [hrp] at hc2
       exact ⟨hc, hc2⟩
 
 theorem rel_init (tier : Tier) (repin : Bool) (init : List Nat) : Rel (specInit init) (initState tier repin init) := by
-  refine ⟨?_, rfl, rfl, rfl, ?_⟩
-  · show cfgIds (cfgAt [.boot init]) = normPeers init
-    simp only [cfgAt, List.foldl_cons, List.foldl_nil, applyCfg]
-    exact cfgIds_initCfg init
-  · intro j hj; cases hj
+  refine ⟨?_, rfl, rfl, rfl⟩
+  show cfgIds (cfgAt [.boot init]) = normPeers init
+  simp only [cfgAt, List.foldl_cons, List.foldl_nil, applyCfg]
+  exact cfgIds_initCfg init
 
 theorem obs_clauses {s : SpecSt} {m : MState} (R : Rel s m) {o : Obs} (h : obsOk m o = true) :
     (checkObs s o).all (·.2) = true := by
